@@ -491,22 +491,22 @@ class World:
             inner = payload
             if flavour == "threading":
                 class Callable_:
-                    def __call__(self, *args, **kwargs):
+                    def __call__(self, /, *args, **kwargs):
                         return inner(*args, **kwargs)
             else:
                 class Callable_:
-                    async def __call__(self, *args, **kwargs):
+                    async def __call__(self, /, *args, **kwargs):
                         return await inner(*args, **kwargs)
             payload = Callable_()
         elif shape == "method":
             inner = payload
             if flavour == "threading":
                 class Holder:
-                    def go(self, *args, **kwargs):
+                    def go(self, /, *args, **kwargs):
                         return inner(*args, **kwargs)
             else:
                 class Holder:
-                    async def go(self, *args, **kwargs):
+                    async def go(self, /, *args, **kwargs):
                         return await inner(*args, **kwargs)
             payload = Holder().go
         return payload
